@@ -217,11 +217,13 @@ def Slug(name):
 
 
 # ---- aggregates ---------------------------------------------------------------
-# Set is kept apart from Count / List: semrun's explanation stage first tests
-# the full set of engine deviations, and "Set of nothing is []" (listed for
-# C02) does not hold where "List of nothing is []" does, so a table holding
-# both could not be explained.  At most three deviations meet in one table
-# (no rows: Count 0, List [], one row for no key).
+# One predicate carries all scalar aggregates of a domain, except for the empty
+# input: semrun's explanation stage first tests the full set of engine
+# deviations, and "Set of nothing is []" (listed for C02) does not hold where
+# "List of nothing is []" does, so a table holding both could not be explained;
+# for the empty input Set is kept apart from Count / List.  At most three
+# deviations meet in one table (no rows: Count 0, List [], one row for no key;
+# only nulls: Count 0, List and Set keep nulls).
 NUM_AGGS_A = [('s', 'Sum'), ('mn', 'Min'), ('mx', 'Max'), ('av', 'Avg'),
               ('st', 'Set')]
 NUM_AGGS_B = [('c', 'Count'), ('l', 'List')]
@@ -300,17 +302,26 @@ def Tv(v):
 def ScalarAggCase(seq, strings=True):
   nums = [[Tv(v)] for v in seq]
   strs = [[Tv(None if v is None else STR_OF[v])] for v in seq]
-  preds = [Facts('E', nums, 1),
-           HeadAgg('PA', 'E', NUM_AGGS_A), HeadAgg('PB', 'E', NUM_AGGS_B),
-           ExprAgg('XA', 'E', NUM_AGGS_A), ExprAgg('XB', 'E', NUM_AGGS_B)]
-  query = ['PA', 'PB', 'XA', 'XB']
-  groups = [NUM_AGGS_A, NUM_AGGS_B]
+  if seq:
+    num_groups = [('N', NUM_AGGS_A + NUM_AGGS_B)]
+    str_groups = [('S', STR_AGGS_A + STR_AGGS_B)]
+  else:
+    num_groups = [('A', NUM_AGGS_A), ('B', NUM_AGGS_B)]
+    str_groups = [('C', STR_AGGS_A), ('D', STR_AGGS_B)]
+  preds = [Facts('E', nums, 1)]
+  query, groups = [], []
+  for suffix, fields in num_groups:
+    preds += [HeadAgg('P' + suffix, 'E', fields),
+              ExprAgg('X' + suffix, 'E', fields)]
+    query += ['P' + suffix, 'X' + suffix]
+    groups.append(fields)
   if strings:
-    preds += [Facts('F', strs, 1),
-              HeadAgg('QA', 'F', STR_AGGS_A), HeadAgg('QB', 'F', STR_AGGS_B),
-              ExprAgg('YA', 'F', STR_AGGS_A), ExprAgg('YB', 'F', STR_AGGS_B)]
-    query += ['QA', 'QB', 'YA', 'YB']
-    groups += [STR_AGGS_A, STR_AGGS_B]
+    preds.append(Facts('F', strs, 1))
+    for suffix, fields in str_groups:
+      preds += [HeadAgg('P' + suffix, 'F', fields),
+                ExprAgg('X' + suffix, 'F', fields)]
+      query += ['P' + suffix, 'X' + suffix]
+      groups.append(fields)
   tag = ''.join('z' if v is None else str(v) for v in seq) or 'empty'
   counts = {}
   for fields in groups:
